@@ -26,24 +26,38 @@
      frag k i             i lies in the stage-k fragment (Lemmas/SoundFrag.v).
    Closure creation (IAnonFn, IFnDecl) runs the constant-propagation pass [recreate_body]
    over the body; the two rules are relative to a closure POLICY (which literals are
-   accepted) and their soundness to [policy_ok powf] ("the pass preserves typing on the
-   accepted literals").
-   [no_fn]       : the empty policy = the judgement without the closure-creation rules
+   accepted) and their soundness to [policy_ok powf pre] ("the pass preserves typing on the
+   accepted literals", and "the prelude is typed where iterator operators are allowed").
+   [no_fn]       : the judgement without the closure-creation and iterator rules
                    (stages 1 - 4a);
    [all_policy]  : every literal is accepted; [recreate_ok_all] PROVES policy_ok for it
                    (Lemmas/SoundRec1-3.v: the pass preserves typing, up to narrowing of the
                    types), so stage 4b holds with no hypothesis either
                    ([exec_sound_closures], [run_code_sound_closures]);
    [P : Policy]  : the general form, under the named hypothesis (Section
-                   WithClosureCreation).
+                   WithClosureCreation);
+   [policy6 pre] : stage 6, the iterator operators `$]`, `$init f`, `? T`, `$+`, `$*`, `\`
+                   (rules T_Collect, T_Reduce, T_TypeFilter, T_Sum, T_Product, T_Partition;
+                   `$&&`, `$||`, `$&`,
+                   `$|` are planted calls of the reducer closures: rule T_Call).  The policy
+                   allows them where the store typing records the honest signatures of the
+                   five prelude closures `$+` / `$*` call ([prelude_ok pre W0]), and allows the
+                   closure literals whose body is typed without iterator operators;
+                   [policy6_ok] PROVES policy_ok for it, [boot_store_ok] /
+                   [boot_prelude_ok] that the store the driver boots from the helper sources
+                   satisfies the premises (Section Iterators; [run_boot_sound]).
+                   The iterator rules are gated by the REJECTION of a reserved key of the
+                   policy, so they are absent under [all_policy] and [no_fn]: the pass does
+                   NOT preserve typing on bodies with iterator operators
+                   ([recreate_iterator_refuted]).
    SPanic = the implementation would panic; SFuel = the model ran out of fuel. *)
 From SSL.Model Require Import Base Ty Float Value Ops Seq Syntax Rt Recreate Exec Check Top.
 From SSL.Lemmas Require Import TyLemmas ValueLemmas ExecLemmas SoundLemmas CellLemmas
-  SoundDefs SoundVals SoundTyping Sound1 Sound2 Sound3 Sound4 Sound5 Soundness SoundFrag
-  SoundRec1 SoundRec2 SoundRec3.
+  SoundDefs SoundVals SoundTyping Sound1 Sound2 Sound3 Sound4 Sound5 SoundRec1 Sound6
+  SoundRec2 SoundRec3 Soundness SoundFrag Sound7 SoundHelpers SoundBoot.
 Local Open Scope Z_scope.
 
-Definition no_fn : Policy := fun _ _ _ _ _ _ => False.
+Definition no_fn : Policy := no_fn_policy.
 
 (* ================================================================= *)
 (* the judgement agrees with the checker's own type computation       *)
@@ -55,7 +69,7 @@ Theorem typed_wf : forall (FL : Policy) W0 G K i T,
   typed W0 G K i T -> (forall n U, assoc n G = Some U -> wf_ty U = true) -> wf_ty T = true.
 Proof. exact @SoundTyping.typed_wf. Qed.
 
-Theorem typed_frag : forall (FL : Policy) W0 G K i T, typed W0 G K i T -> frag 5 i = true.
+Theorem typed_frag : forall (FL : Policy) W0 G K i T, typed W0 G K i T -> frag 6 i = true.
 Proof. exact @SoundFrag.typed_frag. Qed.
 Theorem typed_frag_nofn : forall W0 G K i T, @typed no_fn W0 G K i T -> frag 4 i = true.
 Proof. exact SoundFrag.typed_frag_nofn. Qed.
@@ -111,8 +125,13 @@ Variable powf : fbits -> fbits -> fbits.
 Variable pre : prelude.
 Notation E := (exec powf pre).
 
-Lemma no_fn_rec : @policy_ok no_fn powf.
-Proof. intros W0 G nm ps body r G' Ts []. Qed.
+Lemma no_fn_rec : @policy_ok no_fn powf pre.
+Proof.
+  split.
+  - intros W0 G nm ps body r G' Ts [_ ->] Wf. exfalso.
+    cbn [wf_ty] in Wf. apply andb_true_iff in Wf. destruct Wf as [_ Wf]. discriminate Wf.
+  - intros W0 G i Hg. exfalso. apply Hg. split; reflexivity.
+Qed.
 
 (* ================================================================= *)
 (* the preservation theorem, stages 1 - 4a, no hypothesis             *)
@@ -265,7 +284,7 @@ End Unconditional.
 Section WithClosureCreation.
 Variable P : Policy.
 Existing Instance P.
-Hypothesis recreate_preserves_typing : policy_ok powf.
+Hypothesis recreate_preserves_typing : policy_ok powf pre.
 Notation with_fn_rec := recreate_preserves_typing.
 
 Theorem exec_sound_fn : forall n W0 G K i T W st sc st' sc' s,
@@ -298,7 +317,7 @@ Proof. exact (Soundness.run_code_sound powf pre with_fn_rec). Qed.
 End WithClosureCreation.
 
 (* ---- ... and the hypothesis is a theorem for the policy that accepts every literal ---- *)
-Theorem recreate_preserves_typing_all : @policy_ok all_policy powf.
+Theorem recreate_preserves_typing_all : @policy_ok all_policy powf pre.
 Proof. exact (SoundRec3.recreate_ok_all powf). Qed.
 
 Section Closures.
@@ -372,6 +391,59 @@ Proof.
 Qed.
 
 End Closures.
+
+(* ================================================================= *)
+(* stage 6: the iterator operators                                    *)
+(* ================================================================= *)
+Section Iterators.
+
+(* the hypothesis of the general form is a theorem for [policy6 pre] *)
+Theorem policy6_sound : @policy_ok (policy6 pre) powf pre.
+Proof. exact (Sound7.policy6_ok powf pre). Qed.
+
+(* the iterator rules are available exactly where the prelude is typed *)
+Theorem iter_gate_6 : forall W0 G i, @iter_gate (policy6 pre) W0 G i <-> prelude_ok pre W0.
+Proof.
+  intros W0 G i. split; [apply (proj2 policy6_sound)|apply Sound7.gate6_intro].
+Qed.
+
+(* everything typed with closure literals and without iterator operators stays typed *)
+Theorem typed_closures_in_6 : forall W0 G K i T,
+  @typed all_policy W0 G K i T -> @typed (policy6 pre) W0 G K i T.
+Proof. intros W0. exact (proj1 (Sound7.typed_all_in_6 pre W0)). Qed.
+Theorem typed_list_closures_in_6 : forall W0 G K l G' Ts,
+  @typed_list all_policy W0 G K l G' Ts -> @typed_list (policy6 pre) W0 G K l G' Ts.
+Proof. intros W0. exact (proj1 (proj2 (proj2 (proj2 (proj2 (proj2 (Sound7.typed_all_in_6 pre W0))))))). Qed.
+
+Theorem exec_sound_6 : forall n W0 G K i T W st sc st' sc' s,
+  @typed (policy6 pre) W0 G K i T -> ext W0 W -> @store_ok (policy6 pre) W st -> env_ok W sc G ->
+  E n st sc i = (st', sc', s) ->
+  sc' = sc /\
+  exists W', ext W W' /\ @store_ok (policy6 pre) W' st' /\ env_ok W' sc' G /\ signal_ok W' K T s.
+Proof. exact (exec_sound_fn (policy6 pre) policy6_sound). Qed.
+
+Theorem exec_sound_line_6 : forall n W0 G K i T G' W st sc st' sc' s,
+  @typed_line (policy6 pre) W0 G K i T G' -> ext W0 W -> @store_ok (policy6 pre) W st ->
+  env_ok W sc G ->
+  E n st sc i = (st', sc', s) ->
+  exists W', ext W W' /\ @store_ok (policy6 pre) W' st' /\ signal_ok W' K T s /\
+    (forall v, s = SVal v -> env_ok W' sc' G').
+Proof. exact (exec_sound_line_fn (policy6 pre) policy6_sound). Qed.
+
+Theorem run_code_sound_6 : forall n W0 G l G' Ts,
+  @typed_list (policy6 pre) W0 G (mkK false None) l G' Ts ->
+  forall W st sc last Tl, ext W0 W -> @store_ok (policy6 pre) W st -> env_ok W sc G -> gv W last Tl ->
+  exists W', ext W W' /\ @store_ok (policy6 pre) W' (sto (run_code powf pre n st sc l last)) /\
+    match sig (run_code powf pre n st sc l last) with
+    | SVal v => gv W' v (List.last Ts Tl) /\
+                env_ok W' (scs (run_code powf pre n st sc l last)) G'
+    | SError e => doc_err e
+    | SFuel => True
+    | _ => False
+    end.
+Proof. exact (run_code_sound_fn (policy6 pre) policy6_sound). Qed.
+
+End Iterators.
 
 End C01b.
 
@@ -496,9 +568,7 @@ Proof. vm_compute. repeat split. Qed.
 (* ================================================================= *)
 (* examples: the premises are satisfiable, the conclusions say something *)
 (* ================================================================= *)
-Lemma typed_conv (FL : Policy) W0 G K i T T' : typed W0 G K i T -> T = T' -> typed W0 G K i T'.
-Proof. intros H <-. exact H. Qed.
-
+(* the typing tactics [ty], [tylist], [tyc], [side] are those of Lemmas/SoundBoot.v *)
 Lemma store_ok_empty (FL : Policy) : store_ok W_empty st0.
 Proof.
   split; (split; [reflexivity|]).
@@ -508,81 +578,6 @@ Qed.
 
 Lemma env_ok_empty W sc : env_ok W sc [].
 Proof. intros n T H. discriminate H. Qed.
-
-Ltac side := first [reflexivity | vm_compute; reflexivity | vm_compute; tauto].
-Ltac ty :=
-  lazymatch goal with
-  | |- typed _ _ _ (IVar _) _ =>
-      eapply typed_conv; [apply T_Var; vm_compute; tauto|reflexivity]
-  | |- typed _ _ _ (ILocal _ _) _ =>
-      eapply typed_conv; [apply T_Local; reflexivity|reflexivity]
-  | |- typed _ _ _ (ITuple _) _ => eapply T_Tuple; tyall
-  | |- typed _ _ _ (IArray _ _) _ => eapply T_Array; [tyall|side|side]
-  | |- typed _ _ _ (IArrayRepeat _ _) _ => eapply T_Repeat; [ty|ty|side]
-  | |- typed _ _ _ (ITupleAccess _ _) _ => eapply T_TupleAccess; [ty|left; side]
-  | |- typed _ _ _ (IFieldAccess _ _) _ => eapply T_FieldAccess; [ty|left; side]
-  | |- typed _ _ _ (IStruct _) _ => eapply T_Struct; tyfields
-  | |- typed _ _ _ (IBin At _ _) _ => eapply T_At; [ty|ty|side|side|left; side]
-  | |- typed _ _ _ (IBin And _ _) _ => eapply T_Logic; [side|ty|ty|side|side]
-  | |- typed _ _ _ (IBin Or _ _) _ => eapply T_Logic; [side|ty|ty|side|side]
-  | |- typed _ _ _ (IBin Assign _ _) _ => eapply T_Assign; [ty|ty|left; side]
-  | |- typed _ _ _ (IBin FunctionCall _ _) _ =>
-      eapply T_Call; [ty|side|ty|left; split; side]
-  | |- typed _ _ _ (IBin _ _ _) _ =>
-      first [ eapply T_BinPure; [side|ty|ty|side|side]
-            | eapply T_OpAssign; [side|ty|ty|left; split; side] ]
-  | |- typed _ _ _ (IUn UNot _) _ => eapply T_Not; [ty|side]
-  | |- typed _ _ _ (IUn UUnaryMinus _) _ => eapply T_Neg; [ty|side]
-  | |- typed _ _ _ (IUn UReturn _) _ => eapply T_Return; [ty|side|side]
-  | |- typed _ _ _ (IUn UIndirection _) _ => eapply T_Deref; [ty|left; side]
-  | |- typed _ _ _ (ISlicing _ _ _ _) _ => eapply T_Slice; [ty|side|tyopt|tyopt|tyopt]
-  | |- typed _ _ _ (IBlock _) _ => eapply T_Block; tylist
-  | |- typed _ _ _ (IIfElse _ _ _) _ => eapply T_If; [ty|side|ty|ty]
-  | |- typed _ _ _ (ISetIfElse _ _ _ _ _) _ => eapply T_SetIf; [side|ty|ty|ty]
-  | |- typed _ _ _ (IMatch _ _) _ => eapply T_Match; [ty|tyarms|side]
-  | |- typed _ _ _ (ILoop _) _ => eapply T_Loop; ty
-  | |- typed _ _ _ IBreak _ => apply T_Break; reflexivity
-  | |- typed _ _ _ IContinue _ => apply T_Continue; reflexivity
-  | |- typed _ _ _ (IMut _ _) _ => eapply T_Mut; [side|ty|side]
-  | |- typed _ _ _ (IAnonFn _ _ _) _ => eapply T_AnonFn; [side|side|tylist|side]
-  | |- @typed ?F ?W ?G ?K ?i ?T =>
-      let i' := eval hnf in i in progress (change (@typed F W G K i' T)); ty
-  end
-with tyall :=
-  lazymatch goal with
-  | |- typed_all _ _ _ [] _ => apply TAll_nil
-  | |- typed_all _ _ _ (_ :: _) _ => eapply TAll_cons; [ty|tyall]
-  end
-with tyfields :=
-  lazymatch goal with
-  | |- typed_fields _ _ _ [] _ _ => apply TF_nil
-  | |- typed_fields _ _ _ (_ :: _) _ _ => eapply TF_cons; [ty|tyfields]
-  end
-with tyopt :=
-  lazymatch goal with
-  | |- typed_opt _ _ _ None => apply TO_none
-  | |- typed_opt _ _ _ (Some _) => eapply TO_some; [ty|side]
-  end
-with tyline :=
-  lazymatch goal with
-  | |- typed_line _ _ _ (ISet _ _) _ _ => eapply Ln_set; ty
-  | |- typed_line _ _ _ (IDestruct _ _) _ _ => eapply Ln_destruct; [ty|left; split; side]
-  | |- typed_line _ _ _ (IFnDecl _ _ _ _) _ _ => eapply Ln_fndecl; [side|side|side|tylist|side]
-  | |- typed_line _ _ _ _ _ _ => eapply Ln_stm; ty
-  end
-with tylist :=
-  lazymatch goal with
-  | |- typed_list _ _ _ [] _ _ => apply TL_nil
-  | |- typed_list _ _ _ (_ :: _) _ _ => eapply TL_cons; [tyline|tylist]
-  end
-with tyarms :=
-  lazymatch goal with
-  | |- typed_arms _ _ _ [] _ => apply TA_nil
-  | |- typed_arms _ _ _ (ArmType _ _ _ :: _) _ => eapply TA_type; [side|ty|tyarms]
-  | |- typed_arms _ _ _ (ArmValue _ _ :: _) _ => eapply TA_value; [tyall|ty|tyarms]
-  | |- typed_arms _ _ _ (ArmOther _ :: _) _ => eapply TA_other; [ty|tyarms]
-  end.
-Ltac tyc := eapply typed_conv; [ty|vm_compute; reflexivity].
 
 Definition K0 : kctx := mkK false None.
 Definition nx : name := [120]. Definition ns : name := [115]. Definition nv : name := [118].
@@ -865,4 +860,371 @@ Qed.
 Example recreate_instance_never :
   recreate_body powf0 [[(nc, VMut 0 TInt)]] [fn_layer None [] TInt] body_checked
     = Ok body_recreated.
+Proof. vm_compute. reflexivity. Qed.
+
+(* ================================================================= *)
+(* stage 6: the iterator operators on the store the driver boots      *)
+(* ================================================================= *)
+(* [the_boot] (Lemmas/SoundHelpers.v) runs the helper sources of the driver (build/helpers.sx:
+   MAP, FILTER, ITER, AND, OR, ALL, ANY, INT_PRODUCT, FLOAT_PRODUCT, INT_SUM, FLOAT_SUM,
+   STRING_SUM) through parse_top and run_code, as ocaml/lane_prog.ml does; [st_boot],
+   [pre_boot], [red_boot] are the resulting store (13 closures), prelude and reducers;
+   [W_boot] records the signature each closure was declared with. *)
+Theorem boot_is_the_boot : the_boot = Some (mkBooted st_boot pre_boot red_boot).
+Proof. exact SoundBoot.boot_eq. Qed.
+Theorem boot_store_ok : @store_ok (policy6 pre_boot) W_boot st_boot.
+Proof. exact SoundBoot.boot_store_ok. Qed.
+Theorem boot_prelude_ok : prelude_ok pre_boot W_boot.
+Proof. exact SoundBoot.boot_prelude_ok. Qed.
+
+(* a program typed against the booted store: no panic, only documented errors, the value
+   of the last statement in its static type — no hypothesis left *)
+Theorem run_boot_sound : forall powf n l G' Ts,
+  @typed_list (policy6 pre_boot) W_boot [] (mkK false None) l G' Ts ->
+  match sig (run_code powf pre_boot n st_boot [[]] l VVoid) with
+  | SVal v => has_type v (List.last Ts TVoid) = true
+  | SError e => doc_err e
+  | SFuel => True
+  | _ => False
+  end.
+Proof.
+  intros powf n l G' Ts Hl.
+  destruct (run_code_sound_6 powf pre_boot n W_boot [] l G' Ts Hl W_boot st_boot [[]] VVoid TVoid
+              (ext_refl _) boot_store_ok (env_ok_empty _ _) (gv_void _)) as [W' [_ [_ H]]].
+  destruct (sig (run_code powf pre_boot n st_boot [[]] l VVoid)); try exact H.
+  destruct H as [[Hv _] _]. exact Hv.
+Qed.
+
+(* ---- a hand-written iterator:
+      i := mut 0;
+      it := () -> (bool, int) { i += 1; if *i < 4 { return (true, *i) } return (false, 0) };
+   ---- *)
+Definition ni : name := [105]. Definition nit : name := [105; 116].
+Definition nacc : name := [97; 99; 99]. Definition ncur : name := [99; 117; 114].
+Definition t_cnt := LOther (TMut TInt).
+Definition counter_body : list instr :=
+  [ IBin AssignAdd (ILocal ni t_cnt) (IVar (VInt 1));
+    IIfElse (IBin Lower (IUn UIndirection (ILocal ni t_cnt)) (IVar (VInt 4)))
+            (IUn UReturn (ITuple [IVar (VBool true); IUn UIndirection (ILocal ni t_cnt)]))
+            (IVar VVoid);
+    IUn UReturn (ITuple [IVar (VBool false); IVar (VInt 0)]) ].
+Definition counter : list instr :=
+  [ ISet ni (IMut TInt (IVar (VInt 0)));
+    IFnDecl nit [] counter_body (TTup [TBool; TInt]) ].
+Definition it_int : instr := ILocal nit (LFunction [] (TTup [TBool; TInt])).
+Definition X6 := run_code powf0 pre_boot 60 st_boot [[]].
+
+(* it $+ *)
+Definition ex_sum : list instr := counter ++ [IUn USum it_int].
+Example ex_sum_typed : exists G' Ts,
+  @typed_list (policy6 pre_boot) W_boot [] K0 ex_sum G' Ts /\ List.last Ts TVoid = TInt.
+Proof. eexists. eexists. split; [unfold ex_sum, counter, counter_body; cbn [app]; tylist|reflexivity]. Qed.
+Example ex_sum_runs : sig (X6 ex_sum VVoid) = SVal (VInt 6).
+Proof. vm_compute. reflexivity. Qed.
+Example ex_sum_sound : forall powf n, sig (run_code powf pre_boot n st_boot [[]] ex_sum VVoid) <> SPanic.
+Proof.
+  intros powf n. destruct ex_sum_typed as [G' [Ts [Hl _]]].
+  pose proof (run_boot_sound powf n ex_sum G' Ts Hl) as H. intros E. rewrite E in H. exact H.
+Qed.
+
+(* it $]   — [1, 2, 3] *)
+Definition ex_collect : list instr := counter ++ [IUn UCollect it_int].
+Example ex_collect_typed : exists G' Ts,
+  @typed_list (policy6 pre_boot) W_boot [] K0 ex_collect G' Ts /\ List.last Ts TVoid = TArr TInt.
+Proof. eexists. eexists. split; [unfold ex_collect, counter, counter_body; cbn [app]; tylist|reflexivity]. Qed.
+Example ex_collect_runs : sig (X6 ex_collect VVoid) = SVal (VArr TInt [VInt 1; VInt 2; VInt 3]).
+Proof. vm_compute. reflexivity. Qed.
+
+(* it $(10) (acc: int, cur: int) -> int { return acc + cur }   — reduce with an initial value *)
+Definition add_fn : instr :=
+  IAnonFn [(nacc, TInt); (ncur, TInt)]
+    [IUn UReturn (IBin Add (ILocal nacc (LOther TInt)) (ILocal ncur (LOther TInt)))] TInt.
+Definition ex_reduce : list instr := counter ++ [IReduce it_int (IVar (VInt 10)) add_fn].
+Example ex_reduce_typed : exists G' Ts,
+  @typed_list (policy6 pre_boot) W_boot [] K0 ex_reduce G' Ts /\ List.last Ts TVoid = TInt.
+Proof.
+  eexists. eexists.
+  split; [unfold ex_reduce, counter, counter_body, add_fn; cbn [app]; tylist|reflexivity].
+Qed.
+Example ex_reduce_runs : sig (X6 ex_reduce VVoid) = SVal (VInt 16).
+Proof. vm_compute. reflexivity. Qed.
+
+(* a pipeline over a union element type:
+      j := mut 0;
+      mixed := () -> (bool, int | string) {
+        j += 1;
+        if *j == 1 { return (true, 5) }  if *j == 2 { return (true, "a") }
+        if *j == 3 { return (true, 7) }  return (false, 0) };
+      ints := mixed ? int;              // the type filter: () -> (bool, int)
+      (ints $+, ...)
+   ---- *)
+Definition nj : name := [106]. Definition nmixed : name := [109]. Definition nints : name := [110].
+Definition t_mixed : ty := TTup [TBool; int_or_string].
+Definition yield_at (k : Z) (v : value) : instr :=
+  IIfElse (IBin Equal (IUn UIndirection (ILocal nj t_cnt)) (IVar (VInt k)))
+          (IUn UReturn (ITuple [IVar (VBool true); IVar v])) (IVar VVoid).
+Definition mixed_body : list instr :=
+  [ IBin AssignAdd (ILocal nj t_cnt) (IVar (VInt 1));
+    yield_at 1 (VInt 5); yield_at 2 (VString [97]); yield_at 3 (VInt 7);
+    IUn UReturn (ITuple [IVar (VBool false); IVar (VInt 0)]) ].
+Definition mixed : list instr :=
+  [ ISet nj (IMut TInt (IVar (VInt 0)));
+    IFnDecl nmixed [] mixed_body t_mixed;
+    ISet nints (ITypeFilter (ILocal nmixed (LFunction [] t_mixed)) TInt) ].
+Definition it_ints : instr := ILocal nints (LOther (TFun [] (TTup [TBool; TInt]))).
+
+(* mixed ? int $+   — 12 *)
+Definition ex_filter_sum : list instr := mixed ++ [IUn USum it_ints].
+Example ex_filter_sum_typed : exists G' Ts,
+  @typed_list (policy6 pre_boot) W_boot [] K0 ex_filter_sum G' Ts /\ List.last Ts TVoid = TInt.
+Proof.
+  eexists. eexists.
+  split; [unfold ex_filter_sum, mixed, mixed_body, yield_at; cbn [app]; tylist|reflexivity].
+Qed.
+Example ex_filter_sum_runs : sig (X6 ex_filter_sum VVoid) = SVal (VInt 12).
+Proof. vm_compute. reflexivity. Qed.
+Example ex_filter_sum_sound : forall powf n,
+  match sig (run_code powf pre_boot n st_boot [[]] ex_filter_sum VVoid) with
+  | SVal v => has_type v TInt = true | SError e => doc_err e | SFuel => True | _ => False
+  end.
+Proof.
+  intros powf n. destruct ex_filter_sum_typed as [G' [Ts [Hl Hlast]]].
+  pose proof (run_boot_sound powf n ex_filter_sum G' Ts Hl) as H. rewrite Hlast in H. exact H.
+Qed.
+
+(* (mixed ? int $(1) (acc, cur) -> acc * cur ... ) with the product operator: mixed ? int $*  — 35 *)
+Definition ex_filter_product : list instr := mixed ++ [IUn UProduct it_ints].
+Example ex_filter_product_typed : exists G' Ts,
+  @typed_list (policy6 pre_boot) W_boot [] K0 ex_filter_product G' Ts /\ List.last Ts TVoid = TInt.
+Proof.
+  eexists. eexists.
+  split; [unfold ex_filter_product, mixed, mixed_body, yield_at; cbn [app]; tylist|reflexivity].
+Qed.
+Example ex_filter_product_runs : sig (X6 ex_filter_product VVoid) = SVal (VInt 35).
+Proof. vm_compute. reflexivity. Qed.
+
+(* mixed $]   — [5, "a", 7] at [int | string] *)
+Definition ex_collect_mixed : list instr :=
+  mixed ++ [IUn UCollect (ILocal nmixed (LFunction [] t_mixed))].
+Example ex_collect_mixed_typed : exists G' Ts,
+  @typed_list (policy6 pre_boot) W_boot [] K0 ex_collect_mixed G' Ts /\
+  List.last Ts TVoid = TArr int_or_string.
+Proof.
+  eexists. eexists.
+  split; [unfold ex_collect_mixed, mixed, mixed_body, yield_at; cbn [app]; tylist|reflexivity].
+Qed.
+Example ex_collect_mixed_runs :
+  exists v, sig (X6 ex_collect_mixed VVoid) = SVal v /\ has_type v (TArr int_or_string) = true.
+Proof. eexists. split; vm_compute; reflexivity. Qed.
+
+(* partition of an iterator by a predicate:  it \ (x: int) -> bool { return x < 2 }   — ([1], [2, 3]) *)
+Definition lt2 : instr :=
+  IAnonFn [(nx, TInt)] [IUn UReturn (IBin Lower (ILocal nx (LOther TInt)) (IVar (VInt 2)))] TBool.
+Definition ex_partition : list instr := counter ++ [IBin Partition it_int lt2].
+Example ex_partition_typed : exists G' Ts,
+  @typed_list (policy6 pre_boot) W_boot [] K0 ex_partition G' Ts /\
+  List.last Ts TVoid = TTup [TArr TInt; TArr TInt].
+Proof.
+  eexists. eexists.
+  split; [unfold ex_partition, counter, counter_body, lt2; cbn [app]; tylist|reflexivity].
+Qed.
+Example ex_partition_runs :
+  sig (X6 ex_partition VVoid) = SVal (VTup [VArr TInt [VInt 1]; VArr TInt [VInt 2; VInt 3]]).
+Proof. vm_compute. reflexivity. Qed.
+
+(* it $&  — `$&&`, `$||`, `$&`, `$|` are planted calls of the reducer constants *)
+Definition ex_bitand : list instr :=
+  counter ++ [IBin FunctionCall (IVar (r_and red_boot)) (ITuple [it_int])].
+Example ex_bitand_typed : exists G' Ts,
+  @typed_list (policy6 pre_boot) W_boot [] K0 ex_bitand G' Ts /\ List.last Ts TVoid = TInt.
+Proof.
+  eexists. eexists.
+  split; [unfold ex_bitand, counter, counter_body; cbn [app]; tylist|reflexivity].
+Qed.
+Example ex_bitand_runs : sig (X6 ex_bitand VVoid) = SVal (VInt 0).
+Proof. vm_compute. reflexivity. Qed.
+
+(* ================================================================= *)
+(* stage 6: the side conditions are necessary                          *)
+(* ================================================================= *)
+(* Compared with the tests of the checker (Check.v: `iter_element yt` exists and
+   `yt` matches ACC_SUM / ACC_PRODUCT / ITERATOR_TYPE) the rules ask for
+     - T_Sum / T_Product: [sum_ok] / [prod_ok] — static tests only; with the repaired
+       dispatch (the reducer is chosen among the kinds the STATIC operand type allows) no
+       condition on run-time tags is left.  They exclude the element type `!` (S13c below);
+     - T_TypeFilter: the default value of the filter type is a good value (true for every
+       default without function or cell components; the model's [of_type] returns the
+       placeholder identities VFun 0 / VMut 0 there, the implementation a fresh function /
+       cell: [type_filter_default_model_refuted]);
+     - closure literals under [policy6]: the body is typed without iterator operators
+       ([recreate_iterator_refuted], [recreate_loses_static_type_refuted]).
+   `~`, `@` and the filter `? p` have no rule: the known findings S13a, S13b are reproduced
+   below on the booted store, with variants that no static side condition excludes
+   ([iter_subsumption_refuted], [map_runtime_retype_refuted]). *)
+Definition X6e := exec powf0 pre_boot 60 st_boot [[]].
+Definition empty_iter : instr := IUn UIter (IArray [] TNever).      (* []~ *)
+
+(* S13c: `[]~ $+` is 0 at static type `!`.  The checker's test passes; [sum_ok] does not *)
+Theorem sum_never_refuted :
+  rt (IUn USum empty_iter) = Ok TNever /\
+  sig (X6e (IUn USum empty_iter)) = SVal (VInt 0) /\
+  (iter_element (it_of TNever) = Some TNever /\ matches (it_of TNever) ACC_SUM = true) /\
+  sum_ok (it_of TNever) (ielem (it_of TNever)) = false /\
+  prod_ok (it_of TNever) (ielem (it_of TNever)) = false.
+Proof. repeat split; vm_compute; reflexivity. Qed.
+
+(* S13a: the end marker of `~` when the element type has no default: `([]~)().1 + 1` *)
+Definition p13a : instr :=
+  IBin Add (ITupleAccess (IBin FunctionCall empty_iter (IVar (VTup []))) 1) (IVar (VInt 1)).
+Theorem iter_never_refuted : rt p13a = Ok TNever /\ sig (X6e p13a) = SPanic.
+Proof. split; vm_compute; reflexivity. Qed.
+
+(* S13b: the end marker of `@` is the end marker of the SOURCE:
+   `(([] : [int])~ @ (x: int) -> string { return "s" })().1 + "x"` *)
+Definition to_s : instr := IAnonFn [(nx, TInt)] [IUn UReturn (IVar (VString [115]))] TString.
+Definition p13b : instr :=
+  IBin Add (ITupleAccess (IBin FunctionCall (IBin Map (IUn UIter (IArray [] TInt)) to_s)
+                                            (IVar (VTup []))) 1)
+           (IVar (VString [120])).
+Theorem map_end_marker_refuted : rt p13b = Ok TString /\ sig (X6e p13b) = SPanic.
+Proof. split; vm_compute; reflexivity. Qed.
+
+(* S13d: a `!`-typed statement hides the missing return:
+   `f := () -> int { x := []~ $+; };  f() + 1` *)
+Definition p13d : list instr :=
+  [ IFnDecl nf [] [ISet nx (IUn USum empty_iter)] TInt;
+    IBin Add (IBin FunctionCall (ILocal nf (LFunction [] TInt)) (IVar (VTup []))) (IVar (VInt 1)) ].
+Theorem fall_off_end_refuted : sig (X6 p13d VVoid) = SPanic.
+Proof. vm_compute. reflexivity. Qed.
+
+(* the model's default of a function type is the placeholder `VFun 0`: closure 0 of the booted
+   store is std.len.  `((mixed ? (int) -> int)().1)(5)` *)
+Definition t_ii : ty := TFun [TInt] TInt.
+Definition p_tf : list instr :=
+  mixed ++ [IBin FunctionCall
+              (ITupleAccess (IBin FunctionCall (ITypeFilter (ILocal nmixed (LFunction [] t_mixed)) t_ii)
+                                               (IVar (VTup []))) 1)
+              (ITuple [IVar (VInt 5)])].
+Theorem type_filter_default_model_refuted :
+  of_type t_ii = Some (VFun 0 [TInt] TInt) /\ ~ vgood W_boot (VFun 0 [TInt] TInt) /\
+  sig (X6 p_tf VVoid) = SPanic.
+Proof.
+  split; [reflexivity|]. split; [|vm_compute; reflexivity].
+  intros [_ H]. vm_compute in H. discriminate H.
+Qed.
+
+(* ---- the constant-propagation pass does not preserve the iterator rules ---- *)
+(* (1) `x $+` with x : () -> (bool, int) in the creating scope bound to a function that never
+   returns (v : () -> !, a good value of that type): the pass replaces x by the constant; its
+   type has no element type, and no rule types `v $+` (its [rt] is `!`) *)
+Definition v_div : value := VFun 1 [] TNever.
+Definition W_div : sty := mkW [] [None; Some ([], TNever)].
+Definition i_rec : instr := IUn USum (ILocal nx (LOther (it_of TInt))).
+Theorem recreate_iterator_refuted :
+  (forall pre W0 K, prelude_ok pre W0 -> @typed (policy6 pre) W0 [(nx, it_of TInt)] K i_rec TInt) /\
+  gv W_div v_div (it_of TInt) /\
+  recreate powf0 10 [[(nx, v_div)]] [mkLayer [] None false] i_rec
+    = Ok (IUn USum (IVar v_div), [mkLayer [] None false]) /\
+  rt (IUn USum (IVar v_div)) = Ok TNever /\
+  (forall (P : Policy) W G K T, ~ @typed P W G K (IUn USum (IVar v_div)) T).
+Proof.
+  split; [|split; [|split; [|split]]].
+  - intros pre W0 K HP. unfold i_rec. eapply typed_conv; [ty|reflexivity].
+  - split; [reflexivity|]. split; [reflexivity|]. reflexivity.
+  - vm_compute. reflexivity.
+  - reflexivity.
+  - intros P W G K T H. inversion H; subst.
+    match goal with Hx : typed _ _ _ (IVar v_div) _ |- _ => inversion Hx; subst end.
+    match goal with Hs : sum_ok _ _ = true |- _ => vm_compute in Hs; discriminate Hs end.
+Qed.
+
+(* (2) A NEW DEFECT of the implementation, found by (1) and confirmed on it after the repair of
+   S27: the pass can LOSE static type information, and `$+` then falls back to the run-time tag.
+
+     diverge := () -> ! { return diverge() };
+     empty := () -> (bool, float) { return (false, 0.0) };
+     g := (x: () -> (bool, float), z: () -> (bool, float), c: mut bool) -> float {
+        h := () -> float { y := if *c { x } else { z }; return (y $])~ $+ };
+        return h();
+     };
+     r := g(diverge, empty, mut false);
+     r + 1.5         // "Tried to do 0 + 1.5 which is imposible"
+
+   The checker sees y : () -> (bool, float).  When h is created, x and z are constants, the `if`
+   has the UNION type `() -> ! | () -> (bool, float)`, which has no element type (the first
+   member has none), so `y $]` is re-typed `[!]`, `(y $])~` `() -> (bool, !)`; that static type
+   allows none of the three reducers, the dispatch consults the run-time tag of the (empty)
+   iterator and takes INT_SUM: the int 0 at static type float. *)
+Definition nd_ : name := [100]. Definition ne_ : name := [101]. Definition ng_ : name := [103].
+Definition nh_ : name := [104]. Definition nr_ : name := [114].
+Definition t_itf : ty := TFun [] (TTup [TBool; TFloat]).
+Definition src_narrow : list sline :=
+  [ LFnDecl nd_ [] (Some TNever) [LStm (SRet (Some (SExpr (XCall (XIdent nd_) []))))];
+    LFnDecl ne_ [] (Some (TTup [TBool; TFloat]))
+      [LStm (SRet (Some (SExpr (XTuple [XConst (VBool false); XConst (VFloat 0)]))))];
+    LFnDecl ng_ [(nx, t_itf); (nz, t_itf); (nc, TMut TBool)] (Some TFloat)
+      [ LFnDecl nh_ [] (Some TFloat)
+          [ LSet ny (SIfElse (XPrefix PDeref (XIdent nc))
+                       (SBlock [LStm (SExpr (XIdent nx))])
+                       (Some (SBlock [LStm (SExpr (XIdent nz))])));
+            LStm (SRet (Some (SExpr
+              (XPostfix USum (XPostfix UIter (XPostfix UCollect (XIdent ny))))))) ];
+        LStm (SRet (Some (SExpr (XCall (XIdent nh_) [])))) ];
+    LSet nr_ (SExpr (XCall (XIdent ng_) [XIdent nd_; XIdent ne_; XMut None (XConst (VBool false))]));
+    LStm (SExpr (XInfix Add (XIdent nr_) (XConst (VFloat F_1_5)))) ].
+Theorem recreate_loses_static_type_refuted :
+  concat (TFun [] TNever) t_itf = TMulti [TFun [] TNever; t_itf] /\
+  iter_element (TMulti [TFun [] TNever; t_itf]) = None /\
+  exists is e,
+    parse_top powf0 red_boot 60 boot_scopes [mkLayer [] None false] src_narrow = Ok (is, e) /\
+    sig (run_code powf0 pre_boot 80 st_boot boot_scopes is VVoid) = SPanic.
+Proof.
+  split; [reflexivity|]. split; [reflexivity|].
+  destruct (parse_top powf0 red_boot 60 boot_scopes [mkLayer [] None false] src_narrow)
+    as [[is e]| | |] eqn:Hp; try (vm_compute in Hp; discriminate Hp).
+  exists is, e. split; [reflexivity|].
+  vm_compute in Hp. injection Hp as <- <-. vm_compute. reflexivity.
+Qed.
+
+(* ---- `~` and `@`: no static side condition on the operand types suffices ---- *)
+(* The iterator `a~` is re-typed at the RUN-TIME element type of the array, `it @ f` at the
+   run-time result type of f; both can be strictly below the static ones.  (Confirmed on the
+   implementation; variants of the known findings S13a / S13b.) *)
+Definition run_src (src : list sline) : option signal :=
+  match parse_top powf0 red_boot 60 boot_scopes [mkLayer [] None false] src with
+  | Ok (is, _) => Some (sig (run_code powf0 pre_boot 80 st_boot boot_scopes is VVoid))
+  | _ => None
+  end.
+
+(* g := (a: [int]) -> int { return (a~)().1 + 1 };  g([])
+   the static element type int has a default, the run-time element type `!` of `[]` has none:
+   "Tried to do () + 1" *)
+Definition nm_ : name := [109]. Definition ns_ : name := [115].
+Definition src_iter_sub : list sline :=
+  [ LFnDecl ng_ [(na, TArr TInt)] (Some TInt)
+      [LStm (SRet (Some (SExpr (XInfix Add
+         (XTupleAccess (XCall (XPostfix UIter (XIdent na)) []) 1) (XConst (VInt 1))))))];
+    LStm (SExpr (XCall (XIdent ng_) [XArray []])) ].
+Theorem iter_subsumption_refuted : run_src src_iter_sub = Some SPanic.
+Proof. vm_compute. reflexivity. Qed.
+
+(* it := () -> (bool, int | string) { return (false, 0) };
+   f := (x: int | string) -> string { return "s" };
+   h := (m: (int | string) -> (int | string)) -> string {
+     return match it @ m { s: () -> (bool, string) => s().1 + "x", => "o", } };
+   h(f)
+   the source element type matches the static result type of m, yet the iterator is re-typed
+   `() -> (bool, string)` and its end marker is the source's `(false, 0)`: "Tried to do 0 + x" *)
+Definition src_map_rt : list sline :=
+  [ LFnDecl nit [] (Some (TTup [TBool; int_or_string]))
+      [LStm (SRet (Some (SExpr (XTuple [XConst (VBool false); XConst (VInt 0)]))))];
+    LFnDecl nf [(nx, int_or_string)] (Some TString)
+      [LStm (SRet (Some (SExpr (XConst (VString [115])))))];
+    LFnDecl nh_ [(nm_, TFun [int_or_string] int_or_string)] (Some TString)
+      [LStm (SRet (Some (SMatch (XInfix Map (XIdent nit) (XIdent nm_))
+          [AType ns_ (TFun [] (TTup [TBool; TString]))
+             (SExpr (XInfix Add (XTupleAccess (XCall (XIdent ns_) []) 1) (XConst (VString [120]))));
+           AOther (SExpr (XConst (VString [111])))])))];
+    LStm (SExpr (XCall (XIdent nh_) [XIdent nf])) ].
+Theorem map_runtime_retype_refuted : run_src src_map_rt = Some SPanic.
 Proof. vm_compute. reflexivity. Qed.
